@@ -54,7 +54,9 @@ def run(ctx):
     ctx.assume("traits.common_traits classifies operand types as documented")
 
     _integer_power(ctx, model)
+    _fft_buffers(ctx, model)
     _kernels(ctx, model)
+    _partial_at_zero(ctx, model)
     _polynomial_traversals(ctx, model)
     _quotient(ctx, model)
     _legacy_hashable(ctx, model)
@@ -214,6 +216,145 @@ def _fft_wrappers(ctx, model):
             ctx.ob("P/ifft/sign", ok, m.loc(fn),
                    "ifft is fft with sign=-1" if ok else
                    "ifft does not call fft with sign=-1")
+
+
+# call sites where the argument of a function that has no answer for 0 cannot
+# be 0, with the reason (read in the code, frozen here)
+NONZERO_BY_CONSTRUCTION = {
+    ("pymbolic.rational", "__init__", "denominator"):
+        "a zero denominator is no rational: refusing it is the answer",
+    ("pymbolic.polynomial", "get_unit", "lc"):
+        "the leading coefficient of a polynomial is non-zero by construction "
+        "(P/polynomial/no-zero-coefficients)",
+}
+
+
+def _fft_buffers(ctx, model):
+    """The transform of real (or integer) data is complex.  A result buffer
+    the FFT allocates "like" its input -- numpy's *_like(x) without a dtype,
+    empty(..., dtype=x.dtype) -- has the input's element type, and assigning
+    the computed blocks into it drops their imaginary parts (numpy warns, it
+    does not raise)."""
+    m, fn = model.func(f"{ALG}:fft")
+    x = fn.args.args[0].arg
+    n_alloc = 0
+    for c in ast.walk(fn):
+        if not (isinstance(c, ast.Call) and isinstance(c.func, ast.Attribute)):
+            continue
+        nm = c.func.attr
+        if nm in ("empty_like", "zeros_like", "ones_like", "full_like") and \
+                c.args and isinstance(c.args[0], ast.Name) and c.args[0].id == x:
+            n_alloc += 1
+            typed = any(k.arg == "dtype" and f"{x}.dtype" not in
+                        ast.unparse(k.value) for k in c.keywords)
+            ctx.ob(f"P/fft/result-buffer-like-input:{nm}", typed, m.loc(c),
+                   "buffer allocated with an element type of its own" if typed
+                   else f"fft allocates its result with {ast.unparse(c)}: the "
+                   "buffer has the element type of the input, so the transform "
+                   "of a real or integer vector loses its imaginary parts "
+                   "(fft([1., 2., 3.]) comes back real)")
+        elif nm in ("empty", "zeros") and any(
+                k.arg == "dtype" and ast.unparse(k.value) == f"{x}.dtype"
+                for k in c.keywords):
+            n_alloc += 1
+            ctx.ob(f"P/fft/result-buffer-like-input:{nm}", False, m.loc(c),
+                   f"fft allocates its result with {ast.unparse(c)}: the input's "
+                   "element type cannot hold the transform of real data")
+    ctx.ob("P/fft/result-buffers", True, m.loc(fn),
+           f"{n_alloc} buffer allocations in fft looked at")
+
+
+def _partial_at_zero(ctx, model):
+    """Functions of the traits layer that have no answer for 0 (every way
+    through them for an argument that is neither < 0 nor > 0 raises) are
+    applied only to values the path has tested for being non-zero.  The gcd of
+    0 and 0 is 0: a routine that normalises its result with such a function
+    raises for that pair where it has to answer."""
+    from .. import cfg
+    partial = {}
+    for mname in ("pymbolic.traits",):
+        m = model.repo.module(mname)
+        for fn in ast.walk(m.tree):
+            if not isinstance(fn, ast.FunctionDef) or len(fn.args.args) != 1:
+                continue
+            x = fn.args.args[0].arg
+            for path in cfg.paths(fn):
+                if not path or path[-1][0] != "raise":
+                    continue
+                conds = [(it[1], it[2]) for it in path if it[0] == "cond"]
+
+                def says_zero(t, pol):
+                    if isinstance(t, ast.Compare) and len(t.ops) == 1 and \
+                            isinstance(t.left, ast.Name) and t.left.id == x and \
+                            isinstance(t.comparators[0], ast.Constant) and \
+                            t.comparators[0].value == 0:
+                        op = t.ops[0]
+                        return (isinstance(op, (ast.Lt, ast.Gt, ast.NotEq))
+                                and not pol) or (isinstance(op, ast.Eq) and pol)
+                    if isinstance(t, ast.Name) and t.id == x:
+                        return not pol
+                    if isinstance(t, ast.UnaryOp) and isinstance(t.op, ast.Not) \
+                            and isinstance(t.operand, ast.Name) and \
+                            t.operand.id == x:
+                        return pol
+                    return False
+                if conds and all(says_zero(t, p_) for t, p_ in conds):
+                    partial[fn.name] = m.loc(fn)
+    if "get_unit" not in partial:
+        raise AnalysisError("traits: no function without an answer for 0 found "
+                            "(IntegerTraits.get_unit used to be one)")
+    n_sites = 0
+    for mname in ("pymbolic.algorithm", "pymbolic.polynomial",
+                  "pymbolic.rational"):
+        m = model.repo.module(mname)
+        for fn in ast.walk(m.tree):
+            if not isinstance(fn, ast.FunctionDef):
+                continue
+            for path in cfg.paths(fn, loop_mode="01"):
+                tested = set()
+                for it in path:
+                    if it[0] == "cond":
+                        t, pol = it[1], it[2]
+                        if isinstance(t, ast.Name) and pol:
+                            tested.add(t.id)
+                        if isinstance(t, ast.UnaryOp) and isinstance(
+                                t.op, ast.Not) and isinstance(
+                                t.operand, ast.Name) and not pol:
+                            tested.add(t.operand.id)
+                        continue
+                    node = it[1] if len(it) > 1 else None
+                    if not isinstance(node, ast.AST):
+                        continue
+                    if it[0] in ("stmt", "return") and isinstance(
+                            node, (ast.Assign, ast.AugAssign)):
+                        for tg in (node.targets if isinstance(node, ast.Assign)
+                                   else [node.target]):
+                            for nm in ast.walk(tg):
+                                if isinstance(nm, ast.Name):
+                                    tested.discard(nm.id)
+                    for c in ast.walk(node):
+                        if not (isinstance(c, ast.Call) and isinstance(
+                                c.func, ast.Attribute) and c.func.attr in partial
+                                and len(c.args) == 1):
+                            continue
+                        a = c.args[0]
+                        arg = a.id if isinstance(a, ast.Name) else ast.unparse(a)
+                        key = (mname, fn.name, arg)
+                        n_sites += 1
+                        if arg in tested or key in NONZERO_BY_CONSTRUCTION:
+                            continue
+                        ctx.ob(f"P/partial-at-zero/{fn.name}:{c.func.attr}({arg})",
+                               False, m.loc(c),
+                               f"{fn.name} applies {c.func.attr}, which has no "
+                               f"answer for 0 ({partial[c.func.attr]} raises), to "
+                               f"'{arg}' on a path that has not tested it: "
+                               f"{fn.name} raises where '{arg}' is 0 (the gcd of "
+                               "0 and 0 is 0, and lcm(0, 0) relies on it)")
+    ctx.floor("calls of functions without an answer for 0", n_sites, 2)
+    ctx.ob("P/partial-at-zero", True, "pymbolic/traits.py",
+           f"{sorted(partial)} have no answer for 0; {n_sites} call paths looked "
+           "at: the argument is tested non-zero or non-zero by construction "
+           f"({len(NONZERO_BY_CONSTRUCTION)} frozen sites)")
 
 
 def _integer_power(ctx, model):
